@@ -1066,7 +1066,11 @@ class WSGIApp:
             value = bytes_io.getvalue()
 
         # Blob and File both have the content_type attribute
-        return Response(value, content_type=submodel_element.content_type)  # type: ignore[attr-defined]
+        try:
+            return Response(value, content_type=submodel_element.content_type)  # type: ignore[attr-defined]
+        except ValueError:
+            # the content type can't be sent as a header value (e.g. it contains line breaks)
+            return Response(value, content_type="application/octet-stream")
 
     def put_submodel_submodel_element_attachment(self, request: Request, url_args: Dict, response_t: Type[APIResponse],
                                                  **_kwargs) -> Response:
